@@ -25,6 +25,8 @@ def _(w, e):
         res = list(start.get_hwires(selection=SEL[e["sel"]]) if m else sdn.get_hwires(start, selection=SEL[e["sel"]]))
     elif e["fn"] == "hcables":
         res = list(start.get_hcables(selection=SEL[e["sel"]]) if m else sdn.get_hcables(start, selection=SEL[e["sel"]]))
+    elif e["fn"] == "hports":
+        res = list(start.get_hports() if m else sdn.get_hports(start))
     else:
         res = list(start.get_hpins() if m else sdn.get_hpins(start))
     w.last_trace = (start, res)
@@ -42,10 +44,55 @@ class TraceGen:
         self.left = cfg["n_traces"]
 
     def __call__(self):
+        if getattr(self, "pending", None):
+            return self.pending.pop(0)
+        if self.left > 0 and self.r.random() < self.cfg.get("edit_rate", 0.0):
+            e = self.edit()
+            if e:
+                self.pending = e[1:]
+                return e[0]
         e = self.draw()
         if e is not None and self.r.random() < 0.3:
             e["via"] = "method"
         return e
+
+    def edit(self):
+        """Between two traces a wire trades one of its pins for a free pin of the same definition (the number of pins
+        stays), or a pin is dropped or added: anything remembered from an earlier trace is stale now."""
+        w, r = self.w, self.r
+        n = w.h(self.b.netlist)
+        hd = w.handle_of
+
+        def ref(p):
+            if kind_of(p) == "ipin":
+                return hd(p) and {"k": "in", "h": hd(p)}
+            ih, ph = hd(p.instance), hd(p.inner_pin)
+            return ih and ph and {"k": "stored", "i": ih, "p": ph}
+        defs = [d for lib in n.libraries for d in lib.definitions]
+        r.shuffle(defs)
+        for d in defs[:12]:
+            wires = [wr for c in d.cables for wr in c.wires if hd(wr)]
+            free = [p for port in d.ports for p in port.pins if p.wire is None]
+            free += [op for c in d.children for op in c.pins.values() if op.wire is None]
+            used = [wr for wr in wires if len(wr.pins)]
+            if not wires:
+                continue
+            x = r.random()
+            if x < 0.6 and used and free:
+                wr = r.choice(used)
+                a, b = ref(r.choice(list(wr.pins))), ref(r.choice(free))
+                if a and b:
+                    return [{"op": "disconnect_pin", "on": hd(wr), "pin": a}, {"op": "connect_pin", "on": hd(wr), "pin": b}]
+            elif x < 0.8 and free:
+                b = ref(r.choice(free))
+                if b:
+                    return [{"op": "connect_pin", "on": hd(r.choice(wires)), "pin": b}]
+            elif used:
+                wr = r.choice(used)
+                a = ref(r.choice(list(wr.pins)))
+                if a:
+                    return [{"op": "disconnect_pin", "on": hd(wr), "pin": a}]
+        return None
 
     def draw(self):
         if self.left <= 0:
@@ -77,8 +124,8 @@ class TraceGen:
                 if x < 0.7:
                     return {"op": "htrace", "kind": kind, "path": path, "item": [hd(c), hd(wr)], "fn": "hcables",
                             "sel": "ALL"}
-                return {"op": "htrace", "kind": kind, "path": path, "item": [hd(c), hd(wr)], "fn": "hpins",
-                        "sel": "INSIDE"}
+                return {"op": "htrace", "kind": kind, "path": path, "item": [hd(c), hd(wr)],
+                        "fn": "hpins" if x < 0.87 else "hports", "sel": "INSIDE"}
             ports = [q for q in d.ports if len(q.pins)]
             if not ports:
                 continue
@@ -117,6 +164,7 @@ class C12(Prop):
         cfg["n_traces"] = rng.choice([6, 12, 24])
         cfg["connect_rate"] = rng.choice([0.6, 0.9, 0.9])
         cfg["passthrough"] = rng.random() < 0.7
+        cfg["edit_rate"] = rng.choice([0.0, 0.0, 0.15, 0.3])
         return cfg
 
     def make_gen(self, w, rng, cfg):
@@ -176,6 +224,19 @@ class C12(Prop):
             if seen != want:
                 raise Violation("C12.hpins_of_hwire", "missing" if want - seen else "extra",
                                 "get_hpins(hwire): expected %d pins, got %d" % (len(want), len(seen)))
+            return
+        if fn == "hports":
+            # the ports whose pins are attached to the wire: of the wire's own definition and of its sub-instances
+            wire = item[-1]
+            want = set()
+            for p in wire.pins:
+                if kind_of(p) == "ipin":
+                    want.add(ids(insts + (p.port,)))
+                else:
+                    want.add(ids(insts + (p.instance, p.inner_pin.port)))
+            if seen != want:
+                raise Violation("C12.hports_of_hwire", "missing" if want - seen else "extra",
+                                "get_hports(hwire): expected %d ports, got %d" % (len(want), len(seen)))
             return
         got_wires = set(hw_key(h) for h in res) if fn == "hwires" else None
         if ev["kind"] == "hwire":
